@@ -161,8 +161,7 @@ long_ea_modes = tuple(
 class DataRegDstEa(Constructor):
     """Data register access"""
 
-    # A byte or word move keeps the upper part of the register.
-    reg = Operand("reg", DataRegister, read=True, write=True)
+    reg = Operand("reg", DataRegister, write=True)
     syntax = Syntax([reg])
     patterns = {"opmode": 0, "register": reg}
 
